@@ -482,19 +482,23 @@ Definition not_self_embedded (pkg : pkg_spec) (fuel : nat) (sd : sdecl) : bool :
                     | None => true end)
           (all_occ pkg fuel (self_inst sd)).
 
-(* the interface <e>Getter (<e>Setter) of the view does not, transitively, embed the interface of t *)
-Fixpoint iface_avoids (v : view) (fuel : nat) (getter : bool) (t e : ident) : bool :=
+(* the interface <e>Getter (<e>Setter) of the view has a nesting depth below fuel and does not, transitively,
+   embed the interface of t (false when the fuel runs out: the guard really bounds the view) *)
+Fixpoint iface_ok (v : view) (fuel : nat) (getter : bool) (t e : ident) : bool :=
   match fuel with
-  | O => true
+  | O => false
   | S fuel' =>
       negb (String.eqb e t) &&
       match find_ventry v e with
       | None => true
-      | Some ve => forallb (fun ia : ident * list ty => iface_avoids v fuel' getter t (fst ia))
+      | Some ve => forallb (fun ia : ident * list ty => iface_ok v fuel' getter t (fst ia))
                            (if getter then gs_get_ifaces (ve_data ve) else gs_set_ifaces (ve_data ve))
       end
   end.
 
-Definition ifaces_avoid (v : view) (fuel : nat) (sd : sdecl) (d : gs_data) : bool :=
-  forallb (fun ia : ident * list ty => iface_avoids v fuel true (sd_name sd) (fst ia)) (gs_get_ifaces d) &&
-  forallb (fun ia : ident * list ty => iface_avoids v fuel false (sd_name sd) (fst ia)) (gs_set_ifaces d).
+(* ... for the interfaces of every embedded struct of the closure: a condition on the INPUT (package view and
+   struct graph) *)
+Definition view_ok (pkg : pkg_spec) (v : view) (fuel : nat) (sd : sdecl) : bool :=
+  forallb (fun o => negb (occ_is_node pkg o) ||
+                    (iface_ok v fuel true (sd_name sd) (occ_name o) && iface_ok v fuel false (sd_name sd) (occ_name o)))
+          (all_occ pkg fuel (self_inst sd)).
